@@ -2,6 +2,7 @@ package rules
 
 import (
 	"fmt"
+	"go/token"
 	"go/types"
 	"sort"
 	"strings"
@@ -255,4 +256,199 @@ func guardsHold(fn *ssa.Function, flow *an.ErrFlow, guards []string) string {
 		}
 	}
 	return ""
+}
+
+// ---- C14.handle: a writable kv handle must be Cancel()ed before it is dropped --------------------
+
+func init() {
+	register(&Rule{Name: "C14.handle", Min: 4, Run: c14Handle,
+		Doc: "every store that replaces a live kv handle (KV.Root, VirtualTable.Tree) is preceded on all paths by Cancel() of the handle being dropped"})
+	register(&Rule{Name: "C14.split-index", Min: 6, Run: c14SplitIndex,
+		Doc: "an index >= 1 into the result of strings.Split/SplitN is only reached through a sufficient len test"})
+	byProp["C14"] = append(byProp["C14"], "C14.handle", "C14.split-index", "C07.null-operand", "C03.commit-order")
+	explain["C14"] += " Further clauses: handle (kv's own contract: a dirty handle that is dropped without Cancel() makes its finalizer panic the host at the next GC), split-index (module arguments without '=' must not index past the split: the panic would cross cgo), null-operand (shared with C07), commit-order (shared with C03: success is acknowledged only after the version PUT)."
+}
+
+func c14Handle(c *Ctx) {
+	const rule = "C14.handle"
+	kvRoot := mustField(c, "", "KV", "Root")
+	vtTree := mustField(c, "", "VirtualTable", "Tree")
+	if kvRoot == nil || vtTree == nil {
+		return
+	}
+	for _, fn := range c.P.RepoFuncs(an.LibraryPkg) {
+		for _, b := range fn.Blocks {
+			for _, in := range b.Instrs {
+				st, ok := in.(*ssa.Store)
+				if !ok {
+					continue
+				}
+				fa, ok := st.Addr.(*ssa.FieldAddr)
+				if !ok {
+					continue
+				}
+				fv := an.FieldVar(fa.X.Type(), fa.Field)
+				if fv != kvRoot && fv != vtTree {
+					continue
+				}
+				// initialisation of a struct created in this function is not a replacement
+				if _, fresh := an.ExprRoot(fa.X).(*ssa.Alloc); fresh {
+					continue
+				}
+				fname := core.FuncName(fn)
+				c.R.SawFunc(fname)
+				// the handle being dropped, as an expression
+				var want string
+				if fv == kvRoot {
+					want = "*(" + an.ExprKey(fa) + ")"
+				} else {
+					want = "*(&(*(" + an.ExprKey(fa) + "))." + kvRoot.Name() + ")"
+				}
+				ok2 := false
+				for _, call := range an.Calls(fn) {
+					if !an.CalleeIs(call, kvPkg, "DB", "Cancel") {
+						continue
+					}
+					if an.ExprKey(call.Common().Args[0]) != want {
+						continue
+					}
+					if an.InstrBefore(call, st) {
+						ok2 = true
+					}
+				}
+				what := "KV.Root"
+				if fv == vtTree {
+					what = "VirtualTable.Tree"
+				}
+				c.R.Cond(ok2, rule, fname+": replaces "+what, c.P.Pos(st.Pos()), "the handle being dropped is Cancel()ed first on every path",
+					"a live kv handle is overwritten without Cancel(): if it holds uncommitted writes its finalizer panics the host process at the next GC")
+			}
+		}
+	}
+}
+
+// ---- C14.split-index ---------------------------------------------------------------------------------
+
+func c14SplitIndex(c *Ctx) {
+	const rule = "C14.split-index"
+	for _, fn := range c.P.RepoFuncs(an.LibraryPkg) {
+		for _, b := range fn.Blocks {
+			for _, in := range b.Instrs {
+				var base, idx ssa.Value
+				switch x := in.(type) {
+				case *ssa.IndexAddr:
+					base, idx = x.X, x.Index
+				case *ssa.Index:
+					base, idx = x.X, x.Index
+				default:
+					continue
+				}
+				cl, ok := base.(*ssa.Call)
+				if !ok {
+					continue
+				}
+				f := cl.Call.StaticCallee()
+				if f == nil || an.PkgPathOf(f) != "strings" || !(f.Name() == "Split" || f.Name() == "SplitN" || f.Name() == "SplitAfter" || f.Name() == "SplitAfterN" || f.Name() == "Fields") {
+					continue
+				}
+				k, ok := idx.(*ssa.Const)
+				if !ok || k.Value == nil {
+					continue // variable index: a loop over the parts
+				}
+				iv, _ := constantInt(k)
+				if iv < 1 {
+					continue // element 0 always exists for Split/SplitN
+				}
+				fname := core.FuncName(fn)
+				c.R.SawFunc(fname)
+				guarded := false
+				for _, blk := range fn.Blocks {
+					iff, ok := blk.Instrs[len(blk.Instrs)-1].(*ssa.If)
+					if !ok {
+						continue
+					}
+					cond, neg := an.StripNot(iff.Cond)
+					bo, ok := cond.(*ssa.BinOp)
+					if !ok {
+						continue
+					}
+					isLen := func(v ssa.Value) bool {
+						lc, ok := v.(*ssa.Call)
+						if !ok {
+							return false
+						}
+						bi, ok := lc.Call.Value.(*ssa.Builtin)
+						return ok && bi.Name() == "len" && lc.Call.Args[0] == base
+					}
+					var K int64
+					op := bo.Op
+					switch {
+					case isLen(bo.X):
+						kc, ok := bo.Y.(*ssa.Const)
+						if !ok {
+							continue
+						}
+						K, _ = constantInt(kc)
+					case isLen(bo.Y):
+						kc, ok := bo.X.(*ssa.Const)
+						if !ok {
+							continue
+						}
+						K, _ = constantInt(kc)
+						op = flipOp(op)
+					default:
+						continue
+					}
+					// minimum length implied on each side: [true side, false side], -1 = nothing
+					var minT, minF int64 = -1, -1
+					switch op {
+					case token.EQL:
+						minT = K
+					case token.NEQ:
+						minF = K
+					case token.LSS:
+						minF = K
+					case token.LEQ:
+						minF = K + 1
+					case token.GTR:
+						minT = K + 1
+					case token.GEQ:
+						minT = K
+					}
+					if neg {
+						minT, minF = minF, minT
+					}
+					if minT > iv && an.OnlyVia(blk, 0, b) {
+						guarded = true
+					}
+					if minF > iv && an.OnlyVia(blk, 1, b) {
+						guarded = true
+					}
+				}
+				c.R.Cond(guarded, rule, fmt.Sprintf("%s: %s(..)[%d]", fname, f.Name(), iv), c.P.Pos(in.Pos()),
+					"reached only when len(parts) > index", "the split result is indexed without a length test: an argument without the separator panics (index out of range) through cgo")
+			}
+		}
+	}
+}
+
+func constantInt(k *ssa.Const) (int64, bool) {
+	if k.Value == nil {
+		return 0, false
+	}
+	return k.Int64(), true
+}
+
+func flipOp(op token.Token) token.Token {
+	switch op {
+	case token.LSS:
+		return token.GTR
+	case token.LEQ:
+		return token.GEQ
+	case token.GTR:
+		return token.LSS
+	case token.GEQ:
+		return token.LEQ
+	}
+	return op
 }
